@@ -72,3 +72,55 @@ func H_TD_C15_directory() {
 	gldap.VQuiesce()
 	gldap.VReach("directory workload")
 }
+
+func init() { gldap.VReg("H_TD_C15_pair", H_TD_C15_pair) }
+
+// C15 (test directory): two served operations at the same time on the same entries
+// (clients on different connections): a reader (user search, bind) and a writer
+// (modify add-value / replace, add, delete).  Tracked: the directory's fields, the
+// user entry and its attribute objects.
+func H_TD_C15_pair() {
+	gldap.VSchedFork(1)
+	gldap.VSummarise("encodeInteger")
+	d := &Directory{t: vT{}, logger: hclog.NewNullLogger(), userDN: DefaultUserDN, groupDN: DefaultGroupDN}
+	pwAttr := gldap.NewEntryAttribute("password", []string{"pw"})
+	mailAttr := gldap.NewEntryAttribute("mail", []string{"m0"})
+	u0 := &gldap.Entry{DN: vUserPool[0], Attributes: []*gldap.EntryAttribute{pwAttr, mailAttr}}
+	d.users = []*gldap.Entry{u0}
+	gldap.VTrack(d, "dir")
+	gldap.VTrack(u0, "user0")
+	gldap.VTrack(pwAttr, "user0.password")
+	gldap.VTrack(mailAttr, "user0.mail")
+	reader := gldap.VLen("reader", 1)
+	go func() {
+		switch reader {
+		case 0:
+			x := gldap.VSearchExchange(1, DefaultUserDN, "("+vUserRDN[0]+")")
+			d.handleSearchUsers(vT{})(x.W, x.Req)
+		case 1:
+			x := gldap.VBindExchange(1, vUserPool[0], "pw")
+			d.handleBind(vT{})(x.W, x.Req)
+		}
+		gldap.VEvent("reader done")
+	}()
+	writer := gldap.VLen("writer", 3)
+	go func() {
+		switch writer {
+		case 0:
+			x := gldap.VModifyExchange(1, vUserPool[0], 0, "mail", []string{"m1"}) // add a value
+			d.handleModify(vT{})(x.W, x.Req)
+		case 1:
+			x := gldap.VModifyExchange(1, vUserPool[0], 2, "mail", []string{"m2"}) // replace
+			d.handleModify(vT{})(x.W, x.Req)
+		case 2:
+			x := gldap.VAddExchange(1, vUserPool[1], []string{"mail"}, [][]string{{"m"}})
+			d.handleAdd(vT{})(x.W, x.Req)
+		case 3:
+			x := gldap.VDeleteExchange(1, vUserPool[0])
+			d.handleDelete(vT{})(x.W, x.Req)
+		}
+		gldap.VEvent("writer done")
+	}()
+	gldap.VQuiesce()
+	gldap.VReach("directory pair")
+}
